@@ -10,27 +10,40 @@ CONSTANTS Replica,      \* set of replica ids (naturals)
           Val,          \* payload values (strings)
           Field,        \* hash field names (strings)
           Elem,         \* set elements (strings)
-          Kinds         \* which CRDT kinds the generator uses
+          Kinds,        \* which CRDT kinds the generator uses
+          CausalModes   \* consistency levels explored: {FALSE} eventual, {TRUE} causal, BOOLEAN both
 
 ---------------------------------------------------------------------------
 (* One key, one value per replica: the generator of reachable values.      *)
 VARIABLES x,       \* x[r] : RV or None (key absent at r)
           clk,     \* clk[r] : Lamport time of replica r
-          steps    \* number of steps taken (bound)
+          steps,   \* number of steps taken (bound)
+          causal,  \* ConsistencyLevel::Causal: register writes carry the writer's vector clock
+          nsets    \* nsets[r] : register writes of replica r so far (its own entry of its vector clock)
 
-vars == <<x, clk, steps>>
+vars == <<x, clk, steps, causal, nsets>>
 
 Init == /\ x = [r \in Replica |-> None]
         /\ clk = [r \in Replica |-> 0]
         /\ steps = 0
+        /\ causal \in CausalModes
+        /\ nsets = [r \in Replica |-> 0]
 
 Cur(r) == IF IsNone(x[r]) THEN Fresh(r) ELSE x[r]
 
-Local(r, nv) == /\ x' = [x EXCEPT ![r] = nv]
-                /\ clk' = [clk EXCEPT ![r] = @ + 1]
-                /\ steps' = steps + 1
+LocalC(r, nv) == /\ x' = [x EXCEPT ![r] = nv]
+                 /\ clk' = [clk EXCEPT ![r] = @ + 1]
+                 /\ steps' = steps + 1
+                 /\ UNCHANGED causal
+Local(r, nv) == LocalC(r, nv) /\ UNCHANGED nsets
 
-DoSet(r, v, e)  == "lww" \in Kinds /\ Local(r, OpSet(Cur(r), r, clk[r] + 1, v, e))
+(* record_write under the causal level: the shard's vector clock (only the writer's own entry ever moves) *)
+(* is incremented and REPLACES the value's clock; no other operation touches a value's clock               *)
+WithVc(v, r, n) == [v EXCEPT !.vc = [k \in {r} |-> n], !.hasvc = TRUE]
+DoSet(r, v, e)  == /\ "lww" \in Kinds
+                   /\ LocalC(r, IF causal THEN WithVc(OpSet(Cur(r), r, clk[r] + 1, v, e), r, nsets[r] + 1)
+                                 ELSE OpSet(Cur(r), r, clk[r] + 1, v, e))
+                   /\ nsets' = [nsets EXCEPT ![r] = IF causal THEN @ + 1 ELSE @]
 DoDel(r)        == "lww" \in Kinds /\ ~IsNone(x[r]) /\ x[r].c.k = "lww"
                    /\ Local(r, OpDel(x[r], r, clk[r] + 1))
 DoHSet(r, f, v) == "hash" \in Kinds /\ Local(r, OpHSet(Cur(r), r, clk[r] + 1, f, v))
@@ -50,6 +63,7 @@ MergeFrom(r, s) ==
   /\ x' = [x EXCEPT ![r] = IF IsNone(x[r]) THEN x[s] ELSE Merge(x[r], x[s])]
   /\ clk' = [clk EXCEPT ![r] = MaxN(@, x[s].ts[1]) + 1]
   /\ steps' = steps + 1
+  /\ UNCHANGED <<causal, nsets>>
 
 Next ==
   \/ \E r \in Replica, v \in Val, e \in {-1, 5, 9} : DoSet(r, v, e)
